@@ -20,7 +20,7 @@ ok = lambda **kw: {"b": "ok", "out": kw}  # noqa: E731
 
 
 def make_program(ch: Choices, tier: str) -> Program:
-    shape = ch.choice("c15.shape", ["self", "cycle", "side", "forward", "cycle", "side", "forward", "fanin"])
+    shape = ch.choice("c15.shape", ["self", "cycle", "side", "forward", "cycle", "side", "forward", "fanin", "sidein"])
     mj: Any = ch.choice("c15.maxj", [None, 0, 1, 3])
     where = ch.choice("c15.mjwhere", ["wf", "stage"])
     limit = 10 if mj is None else mj
@@ -57,6 +57,16 @@ def make_program(ch: Choices, tier: str) -> Program:
             {"ref": "D", "deps": ["B2", "C"], "ctx": {}, "tasks": [ok()]},
         ]
         model.update(src="B2", loop=["B", "B2"], after=["D"], once=["A", "C"])
+    elif shape == "sidein":
+        # the side branch S depends only on the jump target, so it is part of what every jump re-arms:
+        # A -> B (jumps back to A) ; A -> S ; D waits for B and S
+        stages = [
+            {"ref": "A", "deps": [], "ctx": {}, "tasks": [ok(k0="s")]},
+            {"ref": "B", "deps": ["A"], "ctx": dict(sctx), "tasks": [{"b": "jumper", "target": "A", "n": n, "out": {"k1": "s"}}]},
+            {"ref": "S", "deps": ["A"], "ctx": {}, "tasks": [ok(k2="s")]},
+            {"ref": "D", "deps": ["B", "S"], "ctx": {}, "tasks": [ok()]},
+        ]
+        model.update(src="B", loop=["A", "B"], after=["D"], once=[], side=["S"])
     elif shape == "fanin":
         # the fan-in lies *inside* the loop: A -> B -> D ; A -> C -> D ; D -> E ; E jumps back to B.  C is a side branch
         # outside the re-armed set; whether D re-runs is not fixed by the property, so it is in no list
@@ -137,6 +147,17 @@ def judge(prog: Program, ref: Any, run: dict[str, Any], info: dict[str, Any]) ->
         if c > 1 or (c != 1 and not exceeded):
             problems.append(("outside-loop-rerun", f"stage {r} outside the re-armed region executed {c} times", "once-count"))
             break
+    # a re-armed side branch runs beside the jumping stage: with in-order delivery it has started (and its task has run)
+    # by the time the jump is handled, so it is re-armed and runs once per iteration like the loop body; under
+    # shuffled delivery how far it got when a jump hits is the schedule's choice - only "at least once" is judged then
+    in_order = not any(run["faults"].get(k, 0) for k in ("reorder", "lost_ack", "lock_lapse", "stale"))
+    for r in m.get("side", []):
+        c = counts.get(task_name(r, 0), 0)
+        if in_order and not exceeded and c != iters:
+            problems.append(("iteration-run-count", f"side branch {r} (depends only on the jump target) executed {c} times over {iters} "
+                                                    f"iteration(s) under in-order delivery", "side-count:" + ("more" if c > iters else "fewer")))
+        elif (c < 1 and not exceeded) or c > iters:      # (a loop that fails at its limit cancels the side branch wherever it is)
+            problems.append(("iteration-run-count", f"side branch {r} executed {c} times over {iters} iteration(s)", "side-count:range"))
     if exceeded:
         if st.get(src) != "TERMINAL":
             problems.append(("limit-not-enforced", f"jump limit {L} exceeded but stage {src} ended {st.get(src)}", "src-not-terminal"))
@@ -146,7 +167,7 @@ def judge(prog: Program, ref: Any, run: dict[str, Any], info: dict[str, Any]) ->
         if ran:
             problems.append(("ran-after-failed-loop", f"stages after the failed loop executed: {ran}", "after-ran"))
     else:
-        bad = {r: st.get(r) for r in m["loop"] + m["after"] + m["once"] if st.get(r) != "SUCCEEDED"}
+        bad = {r: st.get(r) for r in m["loop"] + m["after"] + m["once"] + m.get("side", []) if st.get(r) != "SUCCEEDED"}
         if bad:
             problems.append(("wrong-final-status", f"stages not SUCCEEDED after the loop finished: {bad}", "status"))
         if fs["wf_status"] != "SUCCEEDED":
@@ -161,5 +182,6 @@ def judge(prog: Program, ref: Any, run: dict[str, Any], info: dict[str, Any]) ->
 CHECK = DCheck("C15", {}, judge, make_program=make_program, need_ref=False,
                nontrivial=lambda run, info: any(r["kind"] == "q_ins" and r["new"] == "JumpToStage" for r in run["h"].audit))
 CHECK.free_budget = 1200
+CHECK.inorder_share = 0.3      # the property names in-order delivery explicitly; some expectations are exact only there
 run_one = CHECK.run_one
 replay_one = CHECK.replay_one
